@@ -161,6 +161,9 @@ type tracer struct {
 	w   *bufio.Writer
 	n   int
 	enc *json.Encoder
+	// autoflush: every event reaches the file at once (the life-cycle driver: a Go fatal error inside the library must not take
+	// the observations made before it along)
+	autoflush bool
 }
 
 func newTracer(path string) *tracer {
@@ -181,6 +184,9 @@ func (t *tracer) emit(ev map[string]any) {
 		fatal("encode: %v", err)
 	}
 	t.n++
+	if t.autoflush {
+		t.w.Flush()
+	}
 }
 
 func (t *tracer) close() {
